@@ -1,12 +1,1030 @@
-//! C22 — not built yet.
-use crate::runner::{Outcome, Summary};
-use crate::Ctx;
-use serde_json::Value;
+//! C22 — every block's dependency graph is a well-formed DAG.
+//! Also the shared code of the group C22–C24, C26, C27:
+//!
+//!   * the abstraction function between real instructions and the abstract syntax of spec/MemAccess.tla /
+//!     spec/FrameMatch.tla (`abs_instr`, `text_of_abs`, `real_instr` with a round-trip check);
+//!   * the real handler's access summary of an instruction (`summary_of`) and the projection of a real
+//!     dependency graph to the model's edges (`graph_edges`);
+//!   * the three properties evaluated directly on (real summaries, real edges) (`c22_failures`,
+//!     `c23_failures`, `c24_failures`) — used to classify a mismatch with the model as violation or divergence;
+//!   * `replay_block` (spec -> code for MC_BlockGraph cases), `replay_queue` (spec -> code for MC_DepQueue
+//!     cases through the verif hook), `drive_blocks` / `drive_queue` (code -> spec traces).
+//!
+//! Nodes: START = 0, instruction k (1-based) = k, END = 1000.  Edge labels: "Read" | "Write" | "Capture"
+//! (AwaitMemoryAccess), "Stable" (StableOrdering), "Sched" (Scheduled).
 
-pub fn replay(_ctx: &Ctx, _case: &Value) -> Outcome {
-    panic!("C22: replay not implemented")
+use crate::runner::{Outcome, Summary, Violation};
+use crate::util::{self, arr, s};
+use crate::Ctx;
+use quil_rs::expression::{Expression, PrefixOperator};
+use quil_rs::instruction::{
+    ArithmeticOperand, BinaryOperand, ComparisonOperand, DefaultHandler, ExternSignatureMap, FrameIdentifier,
+    Instruction, InstructionHandler, InstructionRole, MemoryReference, Qubit, UnresolvedCallArgument,
+};
+use quil_rs::program::scheduling::{
+    verif_hooks, ExecutionDependency, MemoryAccessType, ScheduledBasicBlock, ScheduledGraphNode, ScheduledProgram,
+};
+use quil_rs::quil::Quil;
+use quil_rs::Program;
+use rand::seq::SliceRandom;
+use rand::Rng;
+use serde_json::{json, Value};
+use std::collections::{BTreeMap, BTreeSet};
+use std::str::FromStr;
+
+pub const END: u64 = 1000;
+
+// ------------------------------------------------------------------------------- abstraction function
+
+fn fixed(q: &Qubit) -> u64 {
+    match q {
+        Qubit::Fixed(n) => *n,
+        other => panic!("abstraction: only fixed qubits are in the alphabets, got {other:?}"),
+    }
 }
 
-pub fn drive(_ctx: &Ctx) -> Summary {
-    panic!("C22: drive not implemented")
+pub fn abs_mref(m: &MemoryReference) -> Value {
+    json!({"name": m.name, "index": m.index})
+}
+
+pub fn abs_frame(f: &FrameIdentifier) -> Value {
+    json!({"name": f.name, "qubits": f.qubits.iter().map(fixed).collect::<Vec<_>>()})
+}
+
+pub fn abs_expr(e: &Expression) -> Value {
+    match e {
+        Expression::Address(m) => json!({"t": "addr", "m": abs_mref(m)}),
+        Expression::FunctionCall(f) => json!({"t": "fn", "f": f.function.to_string(), "e": abs_expr(&f.expression)}),
+        Expression::Infix(i) => {
+            json!({"t": "inf", "op": i.operator.to_string().trim(), "l": abs_expr(&i.left), "r": abs_expr(&i.right)})
+        }
+        Expression::Number(_) => json!({"t": "num"}),
+        Expression::PiConstant() => json!({"t": "pi"}),
+        Expression::Prefix(p) => match p.operator {
+            PrefixOperator::Minus => json!({"t": "neg", "e": abs_expr(&p.expression)}),
+            PrefixOperator::Plus => json!({"t": "pos", "e": abs_expr(&p.expression)}),
+        },
+        Expression::Variable(v) => json!({"t": "var", "v": v}),
+    }
+}
+
+fn abs_arith_operand(o: &ArithmeticOperand) -> Value {
+    match o {
+        ArithmeticOperand::LiteralInteger(_) => json!({"t": "int"}),
+        ArithmeticOperand::LiteralReal(_) => json!({"t": "real"}),
+        ArithmeticOperand::MemoryReference(m) => json!({"t": "mref", "m": abs_mref(m)}),
+    }
+}
+
+/// Real instruction -> abstract syntax.  `None` for kinds outside the group's alphabets.
+pub fn abs_instr(i: &Instruction) -> Option<Value> {
+    Some(match i {
+        Instruction::Move(m) => json!({"k": "Move", "dst": abs_mref(&m.destination), "src": abs_arith_operand(&m.source)}),
+        Instruction::Arithmetic(a) => json!({"k": "Arith", "op": a.operator.to_quil_or_debug(), "dst": abs_mref(&a.destination),
+                                             "src": abs_arith_operand(&a.source)}),
+        Instruction::BinaryLogic(b) => json!({"k": "Logic", "op": b.operator.to_quil_or_debug(), "dst": abs_mref(&b.destination),
+            "src": match &b.source {
+                BinaryOperand::LiteralInteger(_) => json!({"t": "int"}),
+                BinaryOperand::MemoryReference(m) => json!({"t": "mref", "m": abs_mref(m)}),
+            }}),
+        Instruction::UnaryLogic(u) => json!({"k": "Unary", "op": u.operator.to_quil_or_debug(), "operand": abs_mref(&u.operand)}),
+        Instruction::Comparison(c) => json!({"k": "Compare", "op": c.operator.to_quil_or_debug(), "dst": abs_mref(&c.destination),
+            "lhs": abs_mref(&c.lhs),
+            "rhs": match &c.rhs {
+                ComparisonOperand::LiteralInteger(_) => json!({"t": "int"}),
+                ComparisonOperand::LiteralReal(_) => json!({"t": "real"}),
+                ComparisonOperand::MemoryReference(m) => json!({"t": "mref", "m": abs_mref(m)}),
+            }}),
+        Instruction::Convert(c) => json!({"k": "Convert", "dst": abs_mref(&c.destination), "src": abs_mref(&c.source)}),
+        Instruction::Exchange(e) => json!({"k": "Exchange", "left": abs_mref(&e.left), "right": abs_mref(&e.right)}),
+        Instruction::Load(l) => json!({"k": "Load", "dst": abs_mref(&l.destination), "source": l.source,
+                                       "offset": abs_mref(&l.offset)}),
+        Instruction::Store(st) => json!({"k": "Store", "destination": st.destination, "offset": abs_mref(&st.offset),
+                                         "src": abs_arith_operand(&st.source)}),
+        Instruction::Jump(j) => json!({"k": "Jump", "target": crate::abs::target_name(&j.target)}),
+        Instruction::JumpWhen(j) => json!({"k": "JumpWhen", "target": crate::abs::target_name(&j.target),
+                                           "cond": abs_mref(&j.condition)}),
+        Instruction::JumpUnless(j) => json!({"k": "JumpUnless", "target": crate::abs::target_name(&j.target),
+                                             "cond": abs_mref(&j.condition)}),
+        Instruction::Label(l) => json!({"k": "Label", "target": crate::abs::target_name(&l.target)}),
+        Instruction::Halt() => json!({"k": "Halt"}),
+        Instruction::Wait() => json!({"k": "Wait"}),
+        Instruction::Nop() => json!({"k": "Nop"}),
+        Instruction::Pragma(p) if p.arguments.is_empty() && p.data.is_none() => json!({"k": "Pragma", "name": p.name}),
+        Instruction::Declaration(d) => json!({"k": "Declare", "name": d.name}),
+        Instruction::Gate(g) if g.modifiers.is_empty() => json!({"k": "Gate", "name": g.name,
+            "params": g.parameters.iter().map(abs_expr).collect::<Vec<_>>(),
+            "qubits": g.qubits.iter().map(fixed).collect::<Vec<_>>()}),
+        Instruction::Measurement(m) if m.name.is_none() => json!({"k": "Measure", "qubit": fixed(&m.qubit),
+            "target": util::opt_json(m.target.as_ref().map(abs_mref))}),
+        Instruction::Pulse(p) => json!({"k": "Pulse", "blocking": p.blocking, "frame": abs_frame(&p.frame),
+            "wf": p.waveform.parameters.values().map(abs_expr).collect::<Vec<_>>()}),
+        Instruction::Capture(c) => json!({"k": "Capture", "blocking": c.blocking, "frame": abs_frame(&c.frame),
+            "wf": c.waveform.parameters.values().map(abs_expr).collect::<Vec<_>>(),
+            "mref": abs_mref(&c.memory_reference)}),
+        Instruction::RawCapture(c) => json!({"k": "RawCapture", "blocking": c.blocking, "frame": abs_frame(&c.frame),
+            "duration": abs_expr(&c.duration), "mref": abs_mref(&c.memory_reference)}),
+        Instruction::SetFrequency(x) => json!({"k": "SetFrequency", "frame": abs_frame(&x.frame), "e": abs_expr(&x.frequency)}),
+        Instruction::SetPhase(x) => json!({"k": "SetPhase", "frame": abs_frame(&x.frame), "e": abs_expr(&x.phase)}),
+        Instruction::SetScale(x) => json!({"k": "SetScale", "frame": abs_frame(&x.frame), "e": abs_expr(&x.scale)}),
+        Instruction::ShiftFrequency(x) => json!({"k": "ShiftFrequency", "frame": abs_frame(&x.frame), "e": abs_expr(&x.frequency)}),
+        Instruction::ShiftPhase(x) => json!({"k": "ShiftPhase", "frame": abs_frame(&x.frame), "e": abs_expr(&x.phase)}),
+        Instruction::SwapPhases(x) => json!({"k": "SwapPhases", "frame_1": abs_frame(&x.frame_1), "frame_2": abs_frame(&x.frame_2)}),
+        Instruction::Fence(f) => json!({"k": "Fence", "qubits": f.qubits.iter().map(fixed).collect::<Vec<_>>()}),
+        Instruction::Delay(d) => json!({"k": "Delay", "duration": abs_expr(&d.duration), "frame_names": d.frame_names,
+                                        "qubits": d.qubits.iter().map(fixed).collect::<Vec<_>>()}),
+        Instruction::Reset(r) => json!({"k": "Reset", "qubit": util::opt_json(r.qubit.as_ref().map(fixed))}),
+        Instruction::Call(c) => json!({"k": "Call", "name": c.name,
+            "args": c.arguments().iter().map(|a| match a {
+                UnresolvedCallArgument::Identifier(s) => json!({"t": "id", "s": s}),
+                UnresolvedCallArgument::MemoryReference(m) => json!({"t": "mref", "m": abs_mref(m)}),
+                UnresolvedCallArgument::Immediate(_) => json!({"t": "imm"}),
+            }).collect::<Vec<_>>()}),
+        _ => return None,
+    })
+}
+
+fn text_mref(v: &Value) -> String {
+    format!("{}[{}]", s(v, "name"), util::u(v, "index"))
+}
+
+pub fn text_frame(v: &Value) -> String {
+    let qs: Vec<String> = arr(v, "qubits").iter().map(|q| q.as_u64().unwrap().to_string()).collect();
+    format!("{} \"{}\"", qs.join(" "), s(v, "name"))
+}
+
+pub fn text_expr(v: &Value) -> String {
+    match s(v, "t").as_str() {
+        "num" => "1".into(),
+        "pi" => "pi".into(),
+        "var" => format!("%{}", s(v, "v")),
+        "addr" => text_mref(&v["m"]),
+        "neg" => format!("(-({}))", text_expr(&v["e"])),
+        "inf" => format!("(({}){}({}))", text_expr(&v["l"]), s(v, "op"), text_expr(&v["r"])),
+        "fn" => format!("{}({})", s(v, "f"), text_expr(&v["e"])),
+        other => panic!("abstract expression tag {other}"),
+    }
+}
+
+fn text_operand(v: &Value) -> String {
+    match s(v, "t").as_str() {
+        "int" => "1".into(),
+        "real" => "1.5".into(),
+        "mref" => text_mref(&v["m"]),
+        other => panic!("abstract operand tag {other}"),
+    }
+}
+
+const WF_PARAMS: &[&str] = &["duration", "iq", "scale", "phase", "detuning"];
+fn text_wf(v: &Value) -> String {
+    let ps: Vec<String> = v.as_array().unwrap().iter().enumerate().map(|(n, e)| format!("{}: {}", WF_PARAMS[n], text_expr(e))).collect();
+    format!("flat({})", ps.join(", "))
+}
+
+fn qubit_list(v: &Value, k: &str) -> String {
+    arr(v, k).iter().map(|q| q.as_u64().unwrap().to_string()).collect::<Vec<_>>().join(" ")
+}
+
+/// Abstract syntax -> Quil text.
+pub fn text_of_abs(v: &Value) -> String {
+    let nb = |v: &Value| if v["blocking"].as_bool().unwrap() { "" } else { "NONBLOCKING " };
+    match s(v, "k").as_str() {
+        "Move" => format!("MOVE {} {}", text_mref(&v["dst"]), text_operand(&v["src"])),
+        "Arith" | "Logic" => format!("{} {} {}", s(v, "op"), text_mref(&v["dst"]), text_operand(&v["src"])),
+        "Unary" => format!("{} {}", s(v, "op"), text_mref(&v["operand"])),
+        "Compare" => format!("{} {} {} {}", s(v, "op"), text_mref(&v["dst"]), text_mref(&v["lhs"]), text_operand(&v["rhs"])),
+        "Convert" => format!("CONVERT {} {}", text_mref(&v["dst"]), text_mref(&v["src"])),
+        "Exchange" => format!("EXCHANGE {} {}", text_mref(&v["left"]), text_mref(&v["right"])),
+        "Load" => format!("LOAD {} {} {}", text_mref(&v["dst"]), s(v, "source"), text_mref(&v["offset"])),
+        "Store" => format!("STORE {} {} {}", s(v, "destination"), text_mref(&v["offset"]), text_operand(&v["src"])),
+        "Jump" => format!("JUMP @{}", s(v, "target")),
+        "JumpWhen" => format!("JUMP-WHEN @{} {}", s(v, "target"), text_mref(&v["cond"])),
+        "JumpUnless" => format!("JUMP-UNLESS @{} {}", s(v, "target"), text_mref(&v["cond"])),
+        "Label" => format!("LABEL @{}", s(v, "target")),
+        "Halt" => "HALT".into(),
+        "Wait" => "WAIT".into(),
+        "Nop" => "NOP".into(),
+        "Pragma" => format!("PRAGMA {}", s(v, "name")),
+        "Declare" => format!("DECLARE {} REAL[4]", s(v, "name")),
+        "Gate" => {
+            let ps: Vec<String> = arr(v, "params").iter().map(text_expr).collect();
+            let p = if ps.is_empty() { String::new() } else { format!("({})", ps.join(", ")) };
+            format!("{}{} {}", s(v, "name"), p, qubit_list(v, "qubits"))
+        }
+        "Measure" => match v["target"].get("some") {
+            Some(m) => format!("MEASURE {} {}", v["qubit"], text_mref(m)),
+            None => format!("MEASURE {}", v["qubit"]),
+        },
+        "Pulse" => format!("{}PULSE {} {}", nb(v), text_frame(&v["frame"]), text_wf(&v["wf"])),
+        "Capture" => format!("{}CAPTURE {} {} {}", nb(v), text_frame(&v["frame"]), text_wf(&v["wf"]), text_mref(&v["mref"])),
+        "RawCapture" => format!("{}RAW-CAPTURE {} {} {}", nb(v), text_frame(&v["frame"]), text_expr(&v["duration"]), text_mref(&v["mref"])),
+        "SetFrequency" => format!("SET-FREQUENCY {} {}", text_frame(&v["frame"]), text_expr(&v["e"])),
+        "SetPhase" => format!("SET-PHASE {} {}", text_frame(&v["frame"]), text_expr(&v["e"])),
+        "SetScale" => format!("SET-SCALE {} {}", text_frame(&v["frame"]), text_expr(&v["e"])),
+        "ShiftFrequency" => format!("SHIFT-FREQUENCY {} {}", text_frame(&v["frame"]), text_expr(&v["e"])),
+        "ShiftPhase" => format!("SHIFT-PHASE {} {}", text_frame(&v["frame"]), text_expr(&v["e"])),
+        "SwapPhases" => format!("SWAP-PHASES {} {}", text_frame(&v["frame_1"]), text_frame(&v["frame_2"])),
+        "Fence" => format!("FENCE {}", qubit_list(v, "qubits")).trim_end().to_string(),
+        "Delay" => {
+            let names: Vec<String> = arr(v, "frame_names").iter().map(|n| format!("\"{}\"", n.as_str().unwrap())).collect();
+            let mut t = format!("DELAY {}", qubit_list(v, "qubits"));
+            if !names.is_empty() {
+                t.push(' ');
+                t.push_str(&names.join(" "));
+            }
+            // the duration is parenthesised: `DELAY 0 cos(a[0])` would otherwise be read as a delay on the qubits
+            // `0` and `cos` (the parser takes identifiers after DELAY as qubit variables)
+            format!("{} ({})", t, text_expr(&v["duration"]))
+        }
+        "Reset" => match v["qubit"].get("some") {
+            Some(q) => format!("RESET {q}"),
+            None => "RESET".into(),
+        },
+        "Call" => {
+            let args: Vec<String> = arr(v, "args").iter().map(|a| match s(a, "t").as_str() {
+                "id" => s(a, "s"),
+                "mref" => text_mref(&a["m"]),
+                _ => "1".to_string(),
+            }).collect();
+            format!("CALL {} {}", s(v, "name"), args.join(" ")).trim_end().to_string()
+        }
+        other => panic!("abstract instruction kind {other}"),
+    }
+}
+
+/// Abstract syntax -> real instruction (through the parser), checked by abstracting the result again: the
+/// abstraction function and the printer above must be inverse on the alphabets.  An `Err` means the case
+/// cannot be reproduced on the real library (the parser refuses the text or reads it differently): that is not
+/// an observable of C22-C27, so replays report it as a skipped case with a divergence, never as a violation.
+pub fn try_real_instr(v: &Value) -> Result<Instruction, String> {
+    let text = text_of_abs(v);
+    let i = Instruction::from_str(&text).map_err(|e| format!("alphabet instruction does not parse: {text:?}: {e}"))?;
+    let back = abs_instr(&i).ok_or_else(|| format!("no abstraction for {text}"))?;
+    if &back != v {
+        return Err(format!("abstraction round trip failed for {text}: {v} vs {back}"));
+    }
+    Ok(i)
+}
+
+pub fn not_reproduced(why: String) -> Outcome {
+    let mut o = Outcome::skip();
+    o.diverge(format!("case not reproduced on the real library: {why}"));
+    o
+}
+
+// ------------------------------------------------------------------------------- real summaries and graphs
+
+#[derive(Clone, Debug, Default)]
+pub struct Sum {
+    pub role: &'static str,
+    pub timed: bool,
+    pub r: BTreeSet<String>,
+    pub w: BTreeSet<String>,
+    pub c: BTreeSet<String>,
+    pub used: BTreeSet<String>,
+    pub blk: BTreeSet<String>,
+    /// frames as abstract values, for the trace
+    pub used_abs: Vec<Value>,
+    pub blk_abs: Vec<Value>,
+}
+
+impl Sum {
+    pub fn json(&self) -> Value {
+        json!({"role": self.role, "timed": self.timed, "r": self.r, "w": self.w, "c": self.c,
+               "use": self.used_abs, "blk": self.blk_abs})
+    }
+    fn touches(&self, x: &str) -> bool {
+        self.r.contains(x) || self.w.contains(x) || self.c.contains(x)
+    }
+    fn writes(&self, x: &str) -> bool {
+        self.w.contains(x) || self.c.contains(x)
+    }
+    fn regions(&self) -> BTreeSet<&String> {
+        self.r.iter().chain(self.w.iter()).chain(self.c.iter()).collect()
+    }
+}
+
+pub fn role_name(r: InstructionRole) -> &'static str {
+    match r {
+        InstructionRole::ClassicalCompute => "C",
+        InstructionRole::RFControl => "RF",
+        InstructionRole::ControlFlow => "CF",
+        InstructionRole::ProgramComposition => "PC",
+    }
+}
+
+/// The four handler calls ScheduledBasicBlock::build makes, on the real DefaultHandler.
+pub fn summary_of(program: &Program, sigs: &ExternSignatureMap, i: &Instruction) -> Sum {
+    let h = DefaultHandler;
+    let mut sum = Sum { role: role_name(h.role(i)), timed: h.is_scheduled(i), ..Default::default() };
+    if let Ok(acc) = h.memory_accesses(sigs, i) {
+        sum.r = acc.reads.into_iter().collect();
+        sum.w = acc.writes.into_iter().collect();
+        sum.c = acc.captures.into_iter().collect();
+    }
+    if let Some(m) = h.matching_frames(program, i) {
+        let mut u: Vec<&FrameIdentifier> = m.used.into_iter().collect();
+        let mut b: Vec<&FrameIdentifier> = m.blocked.into_iter().collect();
+        u.sort_by_key(|f| f.to_quil_or_debug());
+        b.sort_by_key(|f| f.to_quil_or_debug());
+        sum.used = u.iter().map(|f| f.to_quil_or_debug()).collect();
+        sum.blk = b.iter().map(|f| f.to_quil_or_debug()).collect();
+        sum.used_abs = u.iter().map(|f| abs_frame(f)).collect();
+        sum.blk_abs = b.iter().map(|f| abs_frame(f)).collect();
+    }
+    sum
+}
+
+pub type Edge = (u64, u64, String);
+
+pub fn node_id(n: ScheduledGraphNode) -> u64 {
+    match n {
+        ScheduledGraphNode::BlockStart => 0,
+        ScheduledGraphNode::InstructionIndex(k) => k as u64 + 1,
+        ScheduledGraphNode::BlockEnd => END,
+    }
+}
+
+pub fn graph_edges(b: &ScheduledBasicBlock) -> BTreeSet<Edge> {
+    let mut out = BTreeSet::new();
+    for (from, to, labels) in b.get_dependency_graph().all_edges() {
+        for l in labels {
+            let name = match l {
+                ExecutionDependency::AwaitMemoryAccess(MemoryAccessType::Read) => "Read",
+                ExecutionDependency::AwaitMemoryAccess(MemoryAccessType::Write) => "Write",
+                ExecutionDependency::AwaitMemoryAccess(MemoryAccessType::Capture) => "Capture",
+                ExecutionDependency::Scheduled => "Sched",
+                ExecutionDependency::StableOrdering => "Stable",
+            };
+            out.insert((node_id(from), node_id(to), name.to_string()));
+        }
+    }
+    out
+}
+
+pub fn edges_json(es: &BTreeSet<Edge>) -> Value {
+    Value::Array(es.iter().map(|(f, t, l)| json!({"from": f, "to": t, "l": l})).collect())
+}
+
+pub fn edges_from_json(v: &Value) -> BTreeSet<Edge> {
+    v.as_array().map(|a| a.iter().map(|e| (util::u(e, "from"), util::u(e, "to"), s(e, "l"))).collect()).unwrap_or_default()
+}
+
+// ------------------------------------------------------------------------------- the properties on real data
+
+fn reach(from: u64, edges: &BTreeSet<Edge>, keep: &dyn Fn(&str) -> bool) -> BTreeSet<u64> {
+    let mut seen: BTreeSet<u64> = [from].into();
+    let mut todo = vec![from];
+    while let Some(n) = todo.pop() {
+        for (f, t, l) in edges {
+            if *f == n && keep(l) && seen.insert(*t) {
+                todo.push(*t);
+            }
+        }
+    }
+    seen
+}
+
+fn is_mem(l: &str) -> bool {
+    matches!(l, "Read" | "Write" | "Capture")
+}
+
+fn node_sum<'a>(sums: &'a [Sum], term: &'a Option<Sum>, n: u64) -> Option<&'a Sum> {
+    if n == END {
+        term.as_ref()
+    } else if n >= 1 && (n as usize) <= sums.len() {
+        Some(&sums[n as usize - 1])
+    } else {
+        None
+    }
+}
+
+/// C22: forward edges over valid nodes, acyclic, and (when every RF instruction matches a frame) every
+/// instruction node reachable from START and reaching END.
+pub fn c22_failures(sums: &[Sum], edges: &BTreeSet<Edge>) -> Vec<String> {
+    let mut fails = vec![];
+    let n = sums.len() as u64;
+    for (f, t, l) in edges {
+        let from_ok = *f == 0 || (1..=n).contains(f);
+        let to_ok = *t == END || (1..=n).contains(t);
+        if !from_ok || !to_ok {
+            fails.push(format!("edge {f}->{t} ({l}) does not link block start / instructions / block end in that order"));
+        } else if f >= t {
+            fails.push(format!("edge {f}->{t} ({l}) points from a later position to an earlier one"));
+        }
+    }
+    // acyclicity, independently of the position argument
+    let mut g = petgraph::graphmap::DiGraphMap::<u64, ()>::new();
+    for (f, t, _) in edges {
+        g.add_edge(*f, *t, ());
+    }
+    if petgraph::algo::is_cyclic_directed(&g) {
+        fails.push("the dependency graph has a cycle".into());
+    }
+    let all_matched = sums.iter().all(|x| x.role != "RF" || !(x.used.is_empty() && x.blk.is_empty()));
+    if all_matched {
+        let fwd = reach(0, edges, &|_| true);
+        let rev: BTreeSet<Edge> = edges.iter().map(|(f, t, l)| (*t, *f, l.clone())).collect();
+        let bwd = reach(END, &rev, &|_| true);
+        for k in 1..=n {
+            if !fwd.contains(&k) {
+                fails.push(format!("instruction node {k} is not reachable from the block start"));
+            }
+            if !bwd.contains(&k) {
+                fails.push(format!("instruction node {k} does not reach the block end"));
+            }
+        }
+    }
+    fails
+}
+
+fn mem_conflict(a: &Sum, b: &Sum) -> bool {
+    a.regions().into_iter().any(|x| b.touches(x) && (a.writes(x) || b.writes(x)))
+}
+
+/// C23 on a graph: conflicting pairs ordered; every memory edge links a conflicting pair with the access type
+/// of its source (this also covers "instructions that conflict on no region have no direct memory edge").
+pub fn c23_failures(sums: &[Sum], term: &Option<Sum>, edges: &BTreeSet<Edge>) -> Vec<String> {
+    let mut fails = vec![];
+    let mut nodes: Vec<u64> = (1..=sums.len() as u64).collect();
+    if term.is_some() {
+        nodes.push(END);
+    }
+    for (ai, &i) in nodes.iter().enumerate() {
+        let r = reach(i, edges, &|_| true);
+        for &j in &nodes[ai + 1..] {
+            let (a, b) = (node_sum(sums, term, i).unwrap(), node_sum(sums, term, j).unwrap());
+            if mem_conflict(a, b) && !r.contains(&j) {
+                fails.push(format!("nodes {i} and {j} conflict on a memory region but {j} does not depend on {i}"));
+            }
+        }
+    }
+    for (f, t, l) in edges.iter().filter(|e| is_mem(&e.2)) {
+        let ok = match (node_sum(sums, term, *f), node_sum(sums, term, *t)) {
+            (Some(a), Some(b)) => match l.as_str() {
+                "Read" => a.r.iter().any(|x| b.writes(x)),
+                "Write" => a.w.iter().any(|x| b.touches(x)),
+                _ => a.c.iter().any(|x| b.touches(x)),
+            },
+            _ => false,
+        };
+        if !ok {
+            fails.push(format!("memory edge {f}->{t} (await {l}) is not justified by a conflicting access pair of that type"));
+        }
+    }
+    fails
+}
+
+fn fr_conflict(a: &Sum, b: &Sum) -> bool {
+    a.used.iter().any(|f| b.used.contains(f) || b.blk.contains(f)) || b.used.iter().any(|f| a.used.contains(f) || a.blk.contains(f))
+}
+
+/// C24 on a graph: frame-conflicting RF pairs ordered through StableOrdering edges (and Scheduled edges when
+/// both are timed); every StableOrdering / Scheduled edge touches a block boundary or links such a pair.
+pub fn c24_failures(sums: &[Sum], edges: &BTreeSet<Edge>) -> Vec<String> {
+    let mut fails = vec![];
+    let n = sums.len();
+    for i in 0..n {
+        if sums[i].role != "RF" {
+            continue;
+        }
+        let rs = reach(i as u64 + 1, edges, &|l| l == "Stable");
+        let rt = reach(i as u64 + 1, edges, &|l| l == "Sched");
+        for j in i + 1..n {
+            if sums[j].role != "RF" || !fr_conflict(&sums[i], &sums[j]) {
+                continue;
+            }
+            if !rs.contains(&(j as u64 + 1)) {
+                fails.push(format!("RF instructions {} and {} conflict on a frame but are not ordered by StableOrdering edges", i + 1, j + 1));
+            }
+            if sums[i].timed && sums[j].timed && !rt.contains(&(j as u64 + 1)) {
+                fails.push(format!("timed RF instructions {} and {} conflict on a frame but are not ordered by Scheduled edges", i + 1, j + 1));
+            }
+        }
+    }
+    for (f, t, l) in edges.iter().filter(|e| !is_mem(&e.2)) {
+        if *f == 0 || *t == END {
+            continue;
+        }
+        let ok = match (node_sum(sums, &None, *f), node_sum(sums, &None, *t)) {
+            (Some(a), Some(b)) => a.role == "RF" && b.role == "RF" && fr_conflict(a, b),
+            _ => false,
+        };
+        if !ok {
+            fails.push(format!("frame edge {f}->{t} ({l}) links two instructions that do not conflict on a frame"));
+        }
+    }
+    fails
+}
+
+pub fn nontrivial_for(pid: &str, sums: &[Sum], term: &Option<Sum>, edges: &BTreeSet<Edge>) -> bool {
+    match pid {
+        "C22" => sums.len() >= 2 && edges.iter().any(|(f, t, _)| *f != 0 && *t != END),
+        "C23" => {
+            let mut all: Vec<&Sum> = sums.iter().collect();
+            if let Some(t) = term {
+                all.push(t);
+            }
+            (0..all.len()).any(|i| (i + 1..all.len()).any(|j| mem_conflict(all[i], all[j])))
+        }
+        _ => (0..sums.len()).any(|i| {
+            (i + 1..sums.len()).any(|j| sums[i].role == "RF" && sums[j].role == "RF" && fr_conflict(&sums[i], &sums[j]))
+        }),
+    }
+}
+
+/// the failures of property `pid` (verdict) and of the two sibling properties (informational in this mode)
+pub fn classify(pid: &str, sums: &[Sum], term: &Option<Sum>, edges: &BTreeSet<Edge>) -> (Vec<String>, Vec<String>) {
+    let f22 = c22_failures(sums, edges);
+    let f23 = c23_failures(sums, term, edges);
+    let f24 = c24_failures(sums, edges);
+    match pid {
+        "C22" => (f22, [f23, f24].concat()),
+        "C23" => (f23, [f22, f24].concat()),
+        _ => (f24, [f22, f23].concat()),
+    }
+}
+
+// ------------------------------------------------------------------------------- building real blocks
+
+pub struct BuiltBlock {
+    pub sums: Vec<Sum>,
+    pub term: Option<Sum>,
+    pub edges: BTreeSet<Edge>,
+}
+
+/// Program text: declarations, DEFFRAMEs, optionally a classical prefix block, the block under test (labelled
+/// when wrapped), optionally a suffix block.  Returns the text and the index of the block under test.
+pub fn program_text(frames: &[Value], body: &[String], term: Option<&String>, wrap: bool) -> (String, usize) {
+    let mut t = String::new();
+    for r in ["a", "b", "c", "d", "zz"] {
+        t.push_str(&format!("DECLARE {r} REAL[4]\n"));
+    }
+    for f in frames {
+        t.push_str(&format!("DEFFRAME {}:\n    SAMPLE-RATE: 1.0\n    INITIAL-FREQUENCY: 1.0\n", text_frame(f)));
+    }
+    if wrap {
+        t.push_str("MOVE zz[0] 1\nJUMP @blk\nLABEL @blk\n");
+    }
+    for i in body {
+        t.push_str(i);
+        t.push('\n');
+    }
+    if let Some(x) = term {
+        t.push_str(x);
+        t.push('\n');
+    }
+    if wrap {
+        t.push_str("LABEL @t\nMOVE zz[1] 2\n");
+    }
+    (t, if wrap { 1 } else { 0 })
+}
+
+/// Schedule the program with the DefaultHandler and project block `index`.  Err(text) when scheduling fails.
+pub fn build_block(program: &Program, index: usize) -> Result<BuiltBlock, String> {
+    let sp = ScheduledProgram::from_program(program, &DefaultHandler).map_err(|e| format!("{:?}", e.variant))?;
+    let blocks = sp.basic_blocks();
+    let b = blocks.get(index).ok_or_else(|| format!("program has {} blocks, wanted block {}", blocks.len(), index))?;
+    let sigs = ExternSignatureMap::try_from(program.extern_pragma_map.clone()).map_err(|_| "extern".to_string())?;
+    let sums: Vec<Sum> = b.instructions().iter().map(|i| summary_of(program, &sigs, i)).collect();
+    let term = b.terminator().clone().into_instruction().map(|i| summary_of(program, &sigs, &i));
+    Ok(BuiltBlock { sums, term, edges: graph_edges(b) })
+}
+
+// ------------------------------------------------------------------------------- replay: blocks
+
+fn pid_of(ctx: &Ctx) -> String {
+    ctx.mode.split('.').next().unwrap_or("C22").to_string()
+}
+
+/// spec -> code for one MC_BlockGraph case {src, term, frames, res, edges}; also the replay of a recorded
+/// history {"history":[reset, ...]} from the block trace (the reset event carries the program text).
+pub fn replay_block(ctx: &Ctx, case: &Value) -> Outcome {
+    let pid = pid_of(ctx);
+    if let Some(h) = case.get("history") {
+        let text = s(&h[0], "text");
+        let index = util::u(&h[0], "block") as usize;
+        let program = util::program(&text);
+        return judge_block(&pid, &program, index, None, None);
+    }
+    let body: Vec<Instruction> = match arr(case, "src").iter().map(try_real_instr).collect() {
+        Ok(b) => b,
+        Err(e) => return not_reproduced(e),
+    };
+    let term: Vec<Instruction> = match arr(case, "term").iter().map(try_real_instr).collect() {
+        Ok(t) => t,
+        Err(e) => return not_reproduced(e),
+    };
+    let body_text: Vec<String> = body.iter().map(|i| i.to_quil_or_debug()).collect();
+    let term_text: Option<String> = term.first().map(|i| i.to_quil_or_debug());
+    // every second case (and every case that would otherwise have no block at all) is placed between two
+    // other blocks: a block's graph must not depend on its neighbours
+    let wrap = (body.is_empty() && term.is_empty()) || crate::runner::hash_line(&case.to_string()) % 2 == 1;
+    let frames: Vec<Value> = arr(case, "frames").clone();
+    let (text, index) = program_text(&frames, &body_text, term_text.as_ref(), wrap);
+    let program = match Program::from_str(&text) {
+        Ok(p) => p,
+        Err(e) => return not_reproduced(format!("program does not parse: {e}")),
+    };
+    judge_block(&pid, &program, index, Some(s(case, "res")), Some(edges_from_json(&case["edges"])))
+}
+
+fn judge_block(pid: &str, program: &Program, index: usize, want_res: Option<String>, want_edges: Option<BTreeSet<Edge>>) -> Outcome {
+    match build_block(program, index) {
+        Err(e) => {
+            // a program that does not schedule is outside the quantifier of C22-C24
+            let mut o = Outcome::ok(false);
+            o.count("refused");
+            if want_res.as_deref() == Some("done") {
+                o.diverge(format!("the model schedules this block, the code refuses it: {e}"));
+            }
+            o
+        }
+        Ok(b) => {
+            let mut o = Outcome::ok(nontrivial_for(pid, &b.sums, &b.term, &b.edges));
+            let (verdict, others) = classify(pid, &b.sums, &b.term, &b.edges);
+            if !verdict.is_empty() {
+                o.violate(Violation::new(&verdict[0], want_edges.as_ref().map(edges_json).unwrap_or(Value::Null), edges_json(&b.edges))
+                    .note(verdict.join("; ")));
+            }
+            for x in others.iter().take(2) {
+                o.diverge(format!("(sibling property) {x}"));
+            }
+            if want_res.as_deref() == Some("err") {
+                o.diverge("the model refuses this block, the code schedules it");
+            } else if let Some(w) = want_edges {
+                if w != b.edges && verdict.is_empty() {
+                    let extra: Vec<&Edge> = b.edges.difference(&w).collect();
+                    let missing: Vec<&Edge> = w.difference(&b.edges).collect();
+                    o.diverge(format!("edge set differs from the model but satisfies {pid}: extra {extra:?}, missing {missing:?}"));
+                }
+            }
+            o
+        }
+    }
+}
+
+// ------------------------------------------------------------------------------- replay: the queue
+
+fn dep_set(v: &Value) -> BTreeSet<(u64, String)> {
+    v.as_array().map(|a| a.iter().map(|d| (util::u(d, "n"), s(d, "t"))).collect()).unwrap_or_default()
+}
+
+fn node_of(n: u64) -> usize {
+    // model node k >= 1 is driven as InstructionIndex(k - 1)
+    (n - 1) as usize
+}
+
+/// Drive the real DependencyQueue through the hook with the accesses of `hist` (each {n, k}); returns the
+/// reported sets per access and the pending set, in the model's encoding.
+pub fn run_real_queue(inst: &str, hist: &[Value]) -> (Vec<BTreeSet<(u64, String)>>, BTreeSet<(u64, String)>) {
+    if inst == "mem" {
+        let accesses: Vec<(usize, MemoryAccessType)> = hist.iter().map(|h| {
+            (node_of(util::u(h, "n")), match s(h, "k").as_str() {
+                "Read" => MemoryAccessType::Read,
+                "Write" => MemoryAccessType::Write,
+                "Capture" => MemoryAccessType::Capture,
+                other => panic!("memory access kind {other}"),
+            })
+        }).collect();
+        let (rep, pend) = verif_hooks::drive_memory_queue(&accesses);
+        let name = |t: MemoryAccessType| match t {
+            MemoryAccessType::Read => "Read",
+            MemoryAccessType::Write => "Write",
+            MemoryAccessType::Capture => "Capture",
+        };
+        (rep.into_iter().map(|ds| ds.into_iter().map(|(t, n)| (node_id(n), name(t).to_string())).collect()).collect(),
+         pend.into_iter().map(|(t, n)| (node_id(n), name(t).to_string())).collect())
+    } else {
+        let accesses: Vec<(usize, bool)> = hist.iter().map(|h| {
+            (node_of(util::u(h, "n")), match s(h, "k").as_str() {
+                "Using" => true,
+                "Blocking" => false,
+                other => panic!("frame access kind {other}"),
+            })
+        }).collect();
+        let (rep, pend) = verif_hooks::drive_frame_queue(&accesses);
+        (rep.into_iter().map(|ds| ds.into_iter().map(|n| (node_id(n), "Node".to_string())).collect()).collect(),
+         pend.into_iter().map(|n| (node_id(n), "Node".to_string())).collect())
+    }
+}
+
+fn deps_json(d: &BTreeSet<(u64, String)>) -> Value {
+    Value::Array(d.iter().map(|(n, t)| json!({"n": n, "t": t})).collect())
+}
+
+/// spec -> code for one MC_DepQueue case {inst, hist:[{n,k,deps}], pending}.  The queue's contract is the
+/// property here (DESIGN.md §6 C23): the reported dependency set of every step, and the pending set, must be
+/// the model's.
+/// The queue's contract in Rust (last writer, plus for a write the reads since; pending = all accesses since and
+/// including the last write).  Used only to judge the replay of a recorded history (a rejection of the trace
+/// validation), where no TLC-computed expectation is at hand; the primary oracle is DepQueue.tla.
+fn contract(inst: &str, hist: &[Value]) -> (Vec<Value>, Value) {
+    let is_w = |h: &Value| matches!(s(h, "k").as_str(), "Write" | "Capture" | "Using");
+    let wdep = |p: Option<usize>| -> Vec<(u64, String)> {
+        match p {
+            Some(q) => vec![(util::u(&hist[q], "n"), if inst == "frame" { "Node".to_string() } else { s(&hist[q], "k") })],
+            None => if inst == "frame" { vec![(0, "Node".to_string())] } else { vec![] },
+        }
+    };
+    let rtype = if inst == "frame" { "Node" } else { "Read" };
+    let at = |p: usize, with_reads: bool| -> BTreeSet<(u64, String)> {
+        let g = (0..p).rev().find(|&q| is_w(&hist[q]));
+        let mut d: BTreeSet<(u64, String)> = wdep(g).into_iter().collect();
+        if with_reads {
+            for q in g.map(|x| x + 1).unwrap_or(0)..p {
+                d.insert((util::u(&hist[q], "n"), rtype.to_string()));
+            }
+        }
+        d
+    };
+    let with_deps = hist.iter().enumerate().map(|(p, h)| {
+        let mut h = h.clone();
+        h["deps"] = deps_json(&at(p, is_w(&hist[p])));
+        h
+    }).collect();
+    (with_deps, deps_json(&at(hist.len(), true)))
+}
+
+pub fn replay_queue(_ctx: &Ctx, case: &Value) -> Outcome {
+    // a violation replay file from trace validation carries the recorded history: re-run it, judged by `contract`
+    let from_history = case.get("history").map(|h| {
+        let (hist, pending) = contract(&s(&h[0], "inst"), h[0]["hist"].as_array().unwrap());
+        json!({"inst": h[0]["inst"], "hist": hist, "pending": pending})
+    });
+    let case = from_history.as_ref().unwrap_or(case);
+    let inst = s(case, "inst");
+    let hist: Vec<Value> = case["hist"].as_array().cloned().unwrap_or_default();
+    let (rep, pend) = run_real_queue(&inst, &hist);
+    let writes = hist.iter().filter(|h| matches!(s(h, "k").as_str(), "Write" | "Capture" | "Using")).count();
+    let mut o = Outcome::ok(writes >= 1 && hist.len() >= 2);
+    for (p, h) in hist.iter().enumerate() {
+        if h.get("deps").is_none() {
+            continue;
+        }
+        let want = dep_set(&h["deps"]);
+        if rep[p] != want {
+            o.violate(Violation::new("dependencies reported by the queue", deps_json(&want), deps_json(&rep[p]))
+                .note(format!("{inst} queue, access {} ({} by node {})", p + 1, s(h, "k"), h["n"])));
+            return o;
+        }
+    }
+    if let Some(w) = case.get("pending") {
+        let want = dep_set(w);
+        if pend != want {
+            o.violate(Violation::new("pending dependencies of the queue", deps_json(&want), deps_json(&pend)).note(format!("{inst} queue")));
+        }
+    }
+    o
+}
+
+// ------------------------------------------------------------------------------- drive: blocks
+
+const REGIONS: &[&str] = &["a", "b", "c", "d"];
+
+fn frames_universe() -> Vec<Value> {
+    vec![json!({"name": "x", "qubits": [0]}), json!({"name": "x", "qubits": [1]}), json!({"name": "x", "qubits": [2]}),
+         json!({"name": "cz", "qubits": [0, 1]}), json!({"name": "cz", "qubits": [1, 2]}), json!({"name": "ro", "qubits": [0]}),
+         json!({"name": "cz", "qubits": [1, 0]})]
+}
+
+fn rnd_ref(r: &mut impl Rng) -> String {
+    format!("{}[{}]", REGIONS.choose(r).unwrap(), r.gen_range(0..3))
+}
+
+fn rnd_expr(r: &mut impl Rng) -> String {
+    match r.gen_range(0..6) {
+        0 | 1 => "1.0".into(),
+        2 => rnd_ref(r),
+        3 => format!("2*{}", rnd_ref(r)),
+        4 => format!("{}+cos({})", rnd_ref(r), rnd_ref(r)),
+        _ => "pi/2".into(),
+    }
+}
+
+fn rnd_classical(r: &mut impl Rng) -> String {
+    let reg = |r: &mut dyn rand::RngCore| REGIONS.choose(r).unwrap().to_string();
+    match r.gen_range(0..14) {
+        0 => format!("MOVE {} 1", rnd_ref(r)),
+        1 => format!("MOVE {} {}", rnd_ref(r), rnd_ref(r)),
+        2 => format!("ADD {} {}", rnd_ref(r), rnd_ref(r)),
+        3 => format!("MUL {} 2", rnd_ref(r)),
+        4 => format!("NEG {}", rnd_ref(r)),
+        5 => format!("EXCHANGE {} {}", rnd_ref(r), rnd_ref(r)),
+        6 => format!("LOAD {} {} {}", rnd_ref(r), reg(r), rnd_ref(r)),
+        7 => format!("STORE {} {} {}", reg(r), rnd_ref(r), rnd_ref(r)),
+        8 => format!("EQ {} {} {}", rnd_ref(r), rnd_ref(r), rnd_ref(r)),
+        9 => format!("CONVERT {} {}", rnd_ref(r), rnd_ref(r)),
+        10 => format!("XOR {} {}", rnd_ref(r), rnd_ref(r)),
+        11 => "NOP".into(),
+        12 => "PRAGMA note".into(),
+        _ => format!("SUB {} 1.5", rnd_ref(r)),
+    }
+}
+
+fn rnd_rf(r: &mut impl Rng, frames: &[Value], reads_memory: bool) -> String {
+    let f = text_frame(frames.choose(r).unwrap());
+    let g = text_frame(frames.choose(r).unwrap());
+    let e = if reads_memory { rnd_expr(r) } else { "1.0".to_string() };
+    let nb = if r.gen_bool(0.5) { "NONBLOCKING " } else { "" };
+    let q = r.gen_range(0..3);
+    match r.gen_range(0..16) {
+        0 | 1 => format!("{nb}PULSE {f} flat(duration: 1.0, iq: {e})"),
+        2 => format!("{nb}CAPTURE {f} flat(duration: 1.0, iq: {e}) {}", rnd_ref(r)),
+        3 => format!("{nb}RAW-CAPTURE {f} {e} {}", rnd_ref(r)),
+        4 => format!("SET-PHASE {f} {e}"),
+        5 => format!("SHIFT-FREQUENCY {f} {e}"),
+        6 => format!("SET-SCALE {f} {e}"),
+        7 => format!("SWAP-PHASES {f} {g}"),
+        8 => "FENCE".into(),
+        9 => format!("FENCE {q}"),
+        10 => format!("FENCE {q} {}", (q + 1) % 3),
+        11 => format!("DELAY {q} {e}"),
+        12 => format!("DELAY {q} \"x\" {e}"),
+        13 => format!("DELAY {q} {} \"cz\" 1.0", (q + 1) % 3),
+        14 => "RESET".into(),
+        _ => format!("RESET {q}"),
+    }
+}
+
+/// code -> spec: seeded random multi-block programs; every block is one history
+///   reset {prog:[summary], term:[summary], regions, frames, text, block}
+///   step  {n, in:[edges into node n]}            one per instruction (loop iteration)
+///   term  {}                                      the terminator's iteration, if any
+///   done  {edges}                                 the public result
+/// args: n (programs), len (max block length), mix = "mem" | "rf" | "mixed"
+pub fn drive_blocks(ctx: &Ctx) -> Summary {
+    let pid = pid_of(ctx);
+    let n = ctx.arg_u64("n", 60);
+    let max_len = ctx.arg_u64("len", 30) as usize;
+    let mix = ctx.arg_str("mix").unwrap_or("mixed").to_string();
+    let path = ctx.arg_str("out").expect("--out");
+    let mut out = std::io::BufWriter::new(std::fs::File::create(path).expect("create trace"));
+    let mut rng = util::rng(ctx.seed, 22 + pid[1..].parse::<u64>().unwrap_or(22));
+    let mut sum = Summary::default();
+    let universe = frames_universe();
+    for _ in 0..n {
+        // a random subset of the frame universe is defined; instructions draw from the whole universe, so
+        // some name undefined frames
+        let frames: Vec<Value> = universe.iter().filter(|_| rng.gen_bool(0.7)).cloned().collect();
+        let nblocks = rng.gen_range(1..=3);
+        let mut body: Vec<String> = vec![];
+        for b in 0..nblocks {
+            if b > 0 {
+                body.push(format!("LABEL @l{b}"));
+            }
+            let len = rng.gen_range(0..=max_len);
+            for _ in 0..len {
+                let p_rf = match mix.as_str() { "mem" => 0.25, "rf" => 0.85, _ => 0.5 };
+                let reads_memory = mix != "rf" || rng.gen_bool(0.2);
+                body.push(if rng.gen_bool(p_rf) { rnd_rf(&mut rng, &universe, reads_memory) } else { rnd_classical(&mut rng) });
+            }
+            match rng.gen_range(0..5) {
+                0 => body.push(format!("JUMP-WHEN @l{} {}", b + 1, rnd_ref(&mut rng))),
+                1 => body.push(format!("JUMP-UNLESS @l{} {}", b + 1, rnd_ref(&mut rng))),
+                2 => body.push(format!("JUMP @l{}", b + 1)),
+                3 if b + 1 == nblocks => body.push("HALT".into()),
+                _ => {}
+            }
+        }
+        let (text, _) = program_text(&frames, &body, None, false);
+        let program = match Program::from_str(&text) {
+            Ok(p) => p,
+            Err(e) => panic!("driver program does not parse: {e}\n{text}"),
+        };
+        let sp = match ScheduledProgram::from_program(&program, &DefaultHandler) {
+            Ok(sp) => sp,
+            Err(_) => {
+                sum.absorb(&json!({"text": text}), &Outcome::skip(), true);
+                continue;
+            }
+        };
+        let regions: BTreeSet<String> = REGIONS.iter().map(|x| x.to_string()).chain(["zz".to_string()]).collect();
+        for index in 0..sp.basic_blocks().len() {
+            let b = build_block(&program, index).expect("block");
+            util::emit(&mut out, &json!({"ev": "reset", "prog": b.sums.iter().map(Sum::json).collect::<Vec<_>>(),
+                "term": b.term.iter().map(Sum::json).collect::<Vec<_>>(), "regions": regions, "frames": frames,
+                "text": text, "block": index}));
+            for k in 1..=b.sums.len() as u64 {
+                let into: BTreeSet<Edge> = b.edges.iter().filter(|e| e.1 == k).cloned().collect();
+                util::emit(&mut out, &json!({"ev": "step", "n": k, "in": edges_json(&into)}));
+            }
+            if b.term.is_some() {
+                util::emit(&mut out, &json!({"ev": "term"}));
+            }
+            util::emit(&mut out, &json!({"ev": "done", "edges": edges_json(&b.edges)}));
+            let mut o = Outcome::ok(nontrivial_for(&pid, &b.sums, &b.term, &b.edges));
+            o.count_n("events", b.sums.len() as u64 + 2 + b.term.is_some() as u64);
+            o.count_n("instructions", b.sums.len() as u64);
+            sum.absorb(&json!({"text": text, "block": index}), &o, true);
+        }
+    }
+    sum
+}
+
+// ------------------------------------------------------------------------------- drive: the queue
+
+/// code -> spec: long random access sequences through the hook, one event per access
+///   reset {inst}     rec {n, k, deps}     pend {pending}
+pub fn drive_queue(ctx: &Ctx) -> Summary {
+    let n = ctx.arg_u64("n", 100);
+    let max_len = ctx.arg_u64("len", 40) as usize;
+    let only = ctx.arg_str("inst").map(|x| x.to_string());
+    let path = ctx.arg_str("out").expect("--out");
+    let mut out = std::io::BufWriter::new(std::fs::File::create(path).expect("create trace"));
+    let mut rng = util::rng(ctx.seed, 2323);
+    let mut sum = Summary::default();
+    for h in 0..n {
+        let inst = only.clone().unwrap_or_else(|| if h % 2 == 0 { "mem".into() } else { "frame".into() });
+        let kinds: &[&str] = if inst == "mem" { &["Read", "Read", "Write", "Capture"] } else { &["Blocking", "Blocking", "Using"] };
+        let len = rng.gen_range(1..=max_len);
+        let mut node = 1u64;
+        let mut hist: Vec<Value> = vec![];
+        for p in 0..len {
+            if p > 0 && rng.gen_bool(0.8) {
+                node += 1;
+            }
+            hist.push(json!({"n": node, "k": kinds.choose(&mut rng).unwrap()}));
+        }
+        let (rep, pend) = run_real_queue(&inst, &hist);
+        util::emit(&mut out, &json!({"ev": "reset", "inst": inst, "hist": hist}));
+        for (p, hv) in hist.iter().enumerate() {
+            util::emit(&mut out, &json!({"ev": "rec", "n": hv["n"], "k": hv["k"], "deps": deps_json(&rep[p])}));
+        }
+        util::emit(&mut out, &json!({"ev": "pend", "pending": deps_json(&pend)}));
+        let writes = hist.iter().filter(|x| matches!(s(x, "k").as_str(), "Write" | "Capture" | "Using")).count();
+        let mut o = Outcome::ok(writes >= 1 && len >= 2);
+        o.count_n("events", len as u64 + 2);
+        sum.absorb(&json!({"inst": inst, "hist": hist}), &o, true);
+    }
+    sum
+}
+
+// ------------------------------------------------------------------------------- entry points of C22
+
+pub fn replay(ctx: &Ctx, case: &Value) -> Outcome {
+    replay_block(ctx, case)
+}
+
+pub fn drive(ctx: &Ctx) -> Summary {
+    drive_blocks(ctx)
+}
+
+#[allow(dead_code)]
+pub fn btree_of(v: &Value) -> BTreeMap<String, Value> {
+    v.as_object().map(|m| m.iter().map(|(k, v)| (k.clone(), v.clone())).collect()).unwrap_or_default()
+}
+
+#[cfg(test)]
+mod tests {
+    //! The property predicates must reject graphs that break the properties (they classify real graphs).
+    use super::*;
+
+    fn cls(r: &[&str], w: &[&str]) -> Sum {
+        Sum { role: "C", r: r.iter().map(|x| x.to_string()).collect(), w: w.iter().map(|x| x.to_string()).collect(), ..Default::default() }
+    }
+    fn rf(timed: bool, used: &[&str], blk: &[&str]) -> Sum {
+        Sum { role: "RF", timed, used: used.iter().map(|x| x.to_string()).collect(), blk: blk.iter().map(|x| x.to_string()).collect(), ..Default::default() }
+    }
+    fn es(v: &[(u64, u64, &str)]) -> BTreeSet<Edge> {
+        v.iter().map(|(f, t, l)| (*f, *t, l.to_string())).collect()
+    }
+
+    #[test]
+    fn c22_rejects_backward_edges_cycles_and_dangling_nodes() {
+        let sums = vec![cls(&[], &["a"]), cls(&["a"], &[])];
+        let good = es(&[(0, 1, "Stable"), (1, 2, "Write"), (2, END, "Stable")]);
+        assert!(c22_failures(&sums, &good).is_empty());
+        assert!(!c22_failures(&sums, &es(&[(0, 1, "Stable"), (2, 1, "Write"), (2, END, "Stable")])).is_empty());
+        assert!(!c22_failures(&sums, &es(&[(0, 1, "Stable"), (1, 2, "Write")])).is_empty()); // 2 does not reach END
+        assert!(!c22_failures(&sums, &es(&[(1, 2, "Write"), (2, END, "Stable")])).is_empty()); // 1 not reachable
+    }
+
+    #[test]
+    fn c23_rejects_unordered_conflicts_and_unjustified_edges() {
+        let sums = vec![cls(&[], &["a"]), cls(&["a"], &[]), cls(&["a"], &[])];
+        let good = es(&[(0, 1, "Stable"), (1, 2, "Write"), (1, 3, "Write"), (2, END, "Stable"), (3, END, "Stable")]);
+        assert!(c23_failures(&sums, &None, &good).is_empty());
+        // write then read without a path
+        assert!(!c23_failures(&sums, &None, &es(&[(0, 1, "Stable"), (1, 2, "Write")])).is_empty());
+        // two reads ordered by a direct memory edge
+        let mut bad = good.clone();
+        bad.insert((2, 3, "Read".into()));
+        assert!(!c23_failures(&sums, &None, &bad).is_empty());
+        // wrong access type on the edge
+        assert!(!c23_failures(&sums, &None, &es(&[(1, 2, "Capture"), (1, 3, "Write")])).is_empty());
+    }
+
+    #[test]
+    fn c24_rejects_unordered_frame_conflicts_and_edges_between_blockers() {
+        let sums = vec![rf(true, &["f"], &[]), rf(true, &[], &["f"]), rf(true, &[], &["f"])];
+        let good = es(&[(0, 1, "Stable"), (0, 1, "Sched"), (1, 2, "Stable"), (1, 2, "Sched"), (1, 3, "Stable"), (1, 3, "Sched")]);
+        assert!(c24_failures(&sums, &good).is_empty());
+        let mut no_sched = good.clone();
+        no_sched.remove(&(1, 3, "Sched".into()));
+        assert!(!c24_failures(&sums, &no_sched).is_empty());
+        let mut blockers = good.clone();
+        blockers.insert((2, 3, "Stable".into()));
+        assert!(!c24_failures(&sums, &blockers).is_empty());
+    }
 }
